@@ -162,3 +162,7 @@ def run(ctx):
     # R4: setter fidelity of the builder (the configured maximum is the one handed to build())
     from .common import builder_setters
     builder_setters(ctx, 'R4', ['max_step_size'])
+    from .common import import_obligations
+    # the step is scaled by max - min of the parameter: the declared ranges (C08.R3)
+    import_obligations(ctx, 'C08', 'R5', only_rules={'R3'}, floor=5)
+
